@@ -25,6 +25,12 @@ def protocolNames : List Bytes :=
 def carried (attached got : HMap) : Bool :=
   (HMap.keys attached).all (fun k => protocolNames.contains k || HMap.getAll k got == HMap.getAll k attached)
 
+/-- `got` holds exactly the custom entries of `attached`: every name of either map (protocol
+names apart) has the same values, in the same order, in both — nothing lost, nothing foreign -/
+def exactly (attached got : HMap) : Bool :=
+  (HMap.keys attached ++ HMap.keys got).all
+    (fun k => protocolNames.contains k || HMap.getAll k got == HMap.getAll k attached)
+
 structure St where
   code : Nat
   message : Bytes
@@ -75,11 +81,13 @@ inductive Got (α : Type)
   | unary (md : HMap) (m : α)
   | stream (md : HMap) (msgs : List α) (ended : Option Bool)
 
-/-- **Request direction.**  `reads` = how many times a streaming handler asked for a message. -/
+/-- **Request direction** ("the handler receives EXACTLY the request messages and metadata the
+caller sent": `exactly`, not merely `carried`).  `reads` = how many times a streaming handler asked
+for a message. -/
 def handlerOk [BEq α] (streaming : Bool) (reads : Nat) (s : Sent α) : Got α → Bool
-  | .unary md m => !streaming && s.msgs == [m] && carried s.md md
+  | .unary md m => !streaming && s.msgs == [m] && exactly s.md md
   | .stream md msgs ended =>
-    streaming && carried s.md md && msgs == s.msgs.take reads &&
+    streaming && exactly s.md md && msgs == s.msgs.take reads &&
       ended == (if reads ≤ s.msgs.length then none else some true)
   | .notCalled => false
 
